@@ -59,3 +59,66 @@ func TestVerifDbgRepeat(t *testing.T) {
 	}
 	fmt.Println("http.conf lengths over 12 runs:", seen)
 }
+
+// TestVerifDbgC14: VERIF_DBG_REPLAY=<replay.json> VERIF_DBG_RUN=<k> re-runs one recorded C14 run and prints BTP statuses.
+func TestVerifDbgC14(t *testing.T) {
+	path := os.Getenv("VERIF_DBG_REPLAY")
+	if path == "" {
+		t.Skip()
+	}
+	raw, _ := os.ReadFile(path)
+	var rp struct {
+		In struct {
+			Cluster vsCluster `json:"cluster"`
+			Runs    []struct {
+				Order []int           `json:"order"`
+				Cuts  map[string]bool `json:"cuts"`
+			} `json:"runs"`
+		} `json:"input_and_observed"`
+	}
+	if err := json.Unmarshal(raw, &rp); err != nil {
+		t.Fatal(err)
+	}
+	var k int
+	fmt.Sscanf(os.Getenv("VERIF_DBG_RUN"), "%d", &k)
+	objs := rp.In.Cluster.Objects()
+	cuts := map[int]bool{}
+	for s := range rp.In.Runs[k].Cuts {
+		var i int
+		fmt.Sscanf(s, "%d", &i)
+		cuts[i] = true
+	}
+	for rep := 0; rep < 3; rep++ {
+		_, _, conds := c14Run(objs, rp.In.Runs[k].Order, cuts)
+		for _, c := range conds {
+			if len(c) > 16 && c[:16] == "BackendTLSPolicy" {
+				fmt.Println(rep, c)
+			}
+		}
+	}
+	for i, j := range rp.In.Runs[k].Order {
+		fmt.Printf("%d:%T/%s cut=%v\n", i, objs[j], objs[j].GetName(), cuts[i])
+	}
+}
+
+func TestVerifDbgC14Msg(t *testing.T) {
+	path := os.Getenv("VERIF_DBG_REPLAY")
+	if path == "" {
+		t.Skip()
+	}
+	raw, _ := os.ReadFile(path)
+	var rp struct {
+		In struct {
+			Cluster vsCluster `json:"cluster"`
+		} `json:"input_and_observed"`
+	}
+	_ = json.Unmarshal(raw, &rp)
+	w := vpRunState(&rp.In.Cluster, false)
+	g := w.proc.GetLatestGraph()
+	for k, b := range g.BackendTLSPolicies {
+		fmt.Println(k, "valid", b.Valid, "ignored", b.Ignored, "referenced", b.IsReferenced, b.Conditions)
+	}
+	for k := range g.ReferencedCaCertConfigMaps {
+		fmt.Println("cm", k)
+	}
+}
